@@ -73,6 +73,9 @@ pub struct ParserInstance {
     pub nesting: Arc<Cell<usize>>,
     /// Was the 'nested too deeply' error reported for this file already?
     pub nesting_exceeded: Arc<Cell<bool>>,
+    /// (how many expressions are being parsed inside each other right now, the number of binary operators the
+    /// outermost of them contains so far)
+    pub expression_size: Arc<Cell<(usize, usize)>>,
 }
 
 impl ParserInstance {
@@ -83,6 +86,7 @@ impl ParserInstance {
             to_import: Arc::new(RefCell::new(IndexMap::new())),
             nesting: Arc::new(Cell::new(0)),
             nesting_exceeded: Arc::new(Cell::new(false)),
+            expression_size: Arc::new(Cell::new((0, 0))),
         }
     }
 
